@@ -663,6 +663,9 @@ where
                                 let final_remaining = src.remaining();
                                 let consumed = new_remaining - final_remaining;
                                 *remaining -= consumed;
+                                // Whatever the parser left unread of the body is skipped: the bytes that
+                                // follow belong to the next frame.
+                                src.clear();
                                 src.unsplit(rem);
                                 let result = if let Some(result) = eof_result {
                                     Ok(Some(RequestMessage {
